@@ -177,6 +177,11 @@ class MyGradUnaryUfunc(MyGradUfunc):
         constant: Optional[bool] = None,
         **kwargs,
     ) -> Tensor:
+        if isinstance(where, Tensor):
+            # a mask given as a tensor: numpy must be handed its array (given the
+            # tensor, the numpy ufunc dispatches straight back to this function)
+            where = where.data
+
         # it is fastest to check if out is None, which is likely the
         # most common scenario, and this is a very "hot path" in the
         # code
@@ -212,6 +217,10 @@ class MyGradBinaryUfunc(MyGradUfunc):
         dtype: DTypeLikeReals = None,
         constant: Optional[bool] = None,
     ) -> Tensor:
+        if isinstance(where, Tensor):
+            # (see MyGradUnaryUfunc.__call__)
+            where = where.data
+
         # it is fastest to check if out is None, which is likely the
         # most common scenario, and this is a very "hot path" in the
         # code
